@@ -1,6 +1,6 @@
 #!/bin/bash
-# runall.sh [tier] — all 20 checks on the current /repo tree, 5 at a time; one summary line each
+# runall.sh [tier] — all 20 checks (or those named in HOOT_PROPS) on the current /repo tree, 5 at a time; one summary line each
 tier=${1:-quick}
 cd /verif
-for p in C01 C02 C03 C04 C05 C06 C07 C08 C09 C10 C11 C12 C13 C14 C15 C16 C17 C18 C19 C20; do echo $p; done | \
+for p in ${HOOT_PROPS:-C01 C02 C03 C04 C05 C06 C07 C08 C09 C10 C11 C12 C13 C14 C15 C16 C17 C18 C19 C20}; do echo $p; done | \
   xargs -P 5 -I{} sh -c 'o=$(python3 check.py {} --tier '"$tier"' 2>&1); rc=$?; echo "{} rc=$rc $(echo "$o" | grep -c "^VIOLATION") violations $(echo "$o" | grep -c "^KNOWN-FINDING") known | $(echo "$o" | grep "tier=" | cut -c1-160)"' | sort
